@@ -58,7 +58,7 @@ package config
 //@ ensures has-12: 253 <= minVersion.Minor && 253 >= maxVersion.Minor ==> exists(0, len(result), func(k int) bool { return is12(result[k]) })
 //@ loop #1: progress: len(out) <= idx && cap(out) == 2 && len(ordered) == 2
 //@ loop #1: ordered-kept: is13(ordered[0]) && is12(ordered[1])
-//@ loop #1: out-fresh: !sameArray(out, ordered)
+//@ loop #1: out-fresh: disjoint(out, ordered) && offsetOf(ordered) == 0
 //@ loop #1: supported-and-in-range: forall(0, len(out), func(k int) bool { return (is12(out[k]) || is13(out[k])) && inRange(out[k]) })
 //@ loop #1: only-13-so-far: idx <= 1 ==> forall(0, len(out), func(k int) bool { return is13(out[k]) })
 //@ loop #1: newest-first: forall(0, len(out), func(i int) bool { return forall(i+1, len(out), func(j int) bool { return out[i].Minor < out[j].Minor }) })
